@@ -11,6 +11,7 @@ pub mod synth;
 pub mod voicegen;
 pub mod voiceread;
 pub mod mon;
+pub mod pollute;
 
 #[global_allocator]
 static GLOBAL: alloc::Counting = alloc::Counting;
